@@ -1,3 +1,904 @@
 package main
 
-func genLocks(repo, outDir string) {}
+// gen/LockDiscipline.v — the synchronisation skeleton of the CURRENT sources, for property C19:
+//   * builtInFunctions: every type with a ProcessBuiltinFunction method (and the activation bases they embed):
+//     per method the calls on mutExecution, receiver fields read / written / address-taken, calls to the type's
+//     own methods; the statement shape of SetNewGasConfig; references to unexported methods from elsewhere;
+//   * container/mutexMap.go: per method the lock calls, whether every access to `values` is bracketed;
+//   * builtInFunctions/container.go: per method the MutexMap methods it goes through;
+//   * atomic/*.go: per method the sync/atomic primitives used and whether the field is ever accessed plainly.
+// Anything the extractor does not understand is emitted as an `unrecognised` entry, which makes the Coq
+// obligation `lock_discipline_ok` fail.
+
+import (
+	"fmt"
+	"go/ast"
+	"go/token"
+	"path/filepath"
+	"sort"
+	"strings"
+)
+
+func qs(l []string) string {
+	var q []string
+	for _, s := range l {
+		q = append(q, "\""+strings.ReplaceAll(s, "\"", "'")+"\"")
+	}
+	return "[" + strings.Join(q, "; ") + "]"
+}
+
+func qpairs(l [][2]string) string {
+	var q []string
+	for _, p := range l {
+		q = append(q, fmt.Sprintf("(\"%s\", \"%s\")", p[0], p[1]))
+	}
+	return "[" + strings.Join(q, "; ") + "]"
+}
+
+func cb(b bool) string {
+	if b {
+		return "true"
+	}
+	return "false"
+}
+
+func uniq(l []string) []string {
+	seen := map[string]bool{}
+	var out []string
+	for _, s := range l {
+		if !seen[s] {
+			seen[s] = true
+			out = append(out, s)
+		}
+	}
+	return out
+}
+
+func typeString(e ast.Expr) string {
+	switch x := e.(type) {
+	case *ast.Ident:
+		return x.Name
+	case *ast.StarExpr:
+		return "*" + typeString(x.X)
+	case *ast.SelectorExpr:
+		return typeString(x.X) + "." + x.Sel.Name
+	case *ast.ArrayType:
+		if x.Len == nil {
+			return "[]" + typeString(x.Elt)
+		}
+		return "[n]" + typeString(x.Elt)
+	case *ast.MapType:
+		return "map[" + typeString(x.Key) + "]" + typeString(x.Value)
+	case *ast.InterfaceType:
+		return "interface{}"
+	case *ast.StructType:
+		return "struct{}"
+	case *ast.FuncType:
+		return "func"
+	}
+	return fmt.Sprintf("?%T", e)
+}
+
+type structInfo struct {
+	name   string
+	file   string
+	fields [][2]string // (name, type); embedded fields are named after their type
+	embeds []string
+}
+
+func structsOf(pi *pkgInfo) map[string]*structInfo {
+	out := map[string]*structInfo{}
+	for fname, f := range pi.files {
+		for _, d := range f.Decls {
+			gd, ok := d.(*ast.GenDecl)
+			if !ok || gd.Tok != token.TYPE {
+				continue
+			}
+			for _, sp := range gd.Specs {
+				ts := sp.(*ast.TypeSpec)
+				st, ok := ts.Type.(*ast.StructType)
+				if !ok {
+					continue
+				}
+				si := &structInfo{name: ts.Name.Name, file: fname}
+				for _, fl := range st.Fields.List {
+					ty := typeString(fl.Type)
+					if len(fl.Names) == 0 {
+						n := strings.TrimPrefix(ty, "*")
+						if i := strings.LastIndex(n, "."); i >= 0 {
+							n = n[i+1:]
+						}
+						si.fields = append(si.fields, [2]string{n, ty})
+						si.embeds = append(si.embeds, n)
+					}
+					for _, n := range fl.Names {
+						si.fields = append(si.fields, [2]string{n.Name, ty})
+					}
+				}
+				out[si.name] = si
+			}
+		}
+	}
+	return out
+}
+
+type methodDecl struct {
+	typ  string
+	recv string
+	fd   *ast.FuncDecl
+	file string
+}
+
+func methodsOf(pi *pkgInfo) []methodDecl {
+	var out []methodDecl
+	var fnames []string
+	for n := range pi.files {
+		fnames = append(fnames, n)
+	}
+	sort.Strings(fnames)
+	for _, fname := range fnames {
+		for _, d := range pi.files[fname].Decls {
+			fd, ok := d.(*ast.FuncDecl)
+			if !ok || fd.Recv == nil || len(fd.Recv.List) != 1 || fd.Body == nil {
+				continue
+			}
+			typ := strings.TrimPrefix(typeString(fd.Recv.List[0].Type), "*")
+			recv := "_"
+			if len(fd.Recv.List[0].Names) == 1 {
+				recv = fd.Recv.List[0].Names[0].Name
+			}
+			out = append(out, methodDecl{typ: typ, recv: recv, fd: fd, file: fname})
+		}
+	}
+	return out
+}
+
+// recvField returns the receiver field at the base of an expression such as recv.f, recv.f.g, recv.f[i].g
+func recvField(e ast.Expr, recv string) (string, *ast.SelectorExpr) {
+	for {
+		switch x := e.(type) {
+		case *ast.SelectorExpr:
+			if id, ok := x.X.(*ast.Ident); ok && id.Name == recv {
+				return x.Sel.Name, x
+			}
+			e = x.X
+		case *ast.IndexExpr:
+			e = x.X
+		case *ast.ParenExpr:
+			e = x.X
+		case *ast.StarExpr:
+			e = x.X
+		default:
+			return "", nil
+		}
+	}
+}
+
+type methodFacts struct {
+	name       string
+	exported   bool
+	mutexCalls []string
+	firstTwo   bool
+	reads      []string
+	writes     []string
+	calls      []string
+	addrTaken  []string
+	fieldCalls [][2]string
+}
+
+func analyseMethod(m methodDecl, fields map[string]bool, mutexField string) methodFacts {
+	mf := methodFacts{name: m.fd.Name.Name, exported: ast.IsExported(m.fd.Name.Name)}
+	recv := m.recv
+	isMutexCall := func(call *ast.CallExpr) (string, bool) {
+		se, ok := call.Fun.(*ast.SelectorExpr)
+		if !ok {
+			return "", false
+		}
+		inner, ok := se.X.(*ast.SelectorExpr)
+		if !ok {
+			return "", false
+		}
+		id, ok := inner.X.(*ast.Ident)
+		if !ok || id.Name != recv || inner.Sel.Name != mutexField {
+			return "", false
+		}
+		return se.Sel.Name, true
+	}
+	// first two statements
+	if len(m.fd.Body.List) >= 2 {
+		if es, ok := m.fd.Body.List[0].(*ast.ExprStmt); ok {
+			if c, ok := es.X.(*ast.CallExpr); ok {
+				if n, ok := isMutexCall(c); ok && n == "RLock" && len(c.Args) == 0 {
+					if ds, ok := m.fd.Body.List[1].(*ast.DeferStmt); ok {
+						if n2, ok := isMutexCall(ds.Call); ok && n2 == "RUnlock" && len(ds.Call.Args) == 0 {
+							mf.firstTwo = true
+						}
+					}
+				}
+			}
+		}
+	}
+	written := map[*ast.SelectorExpr]bool{}
+	handled := map[*ast.SelectorExpr]bool{} // selector nodes consumed as call receivers / mutex calls / method calls
+	deferred := map[*ast.CallExpr]bool{}
+	ast.Inspect(m.fd.Body, func(n ast.Node) bool {
+		switch x := n.(type) {
+		case *ast.DeferStmt:
+			deferred[x.Call] = true
+		case *ast.GoStmt:
+			mf.calls = append(mf.calls, "go-statement")
+		case *ast.AssignStmt:
+			for _, l := range x.Lhs {
+				if f, se := recvField(l, recv); se != nil && fields[f] {
+					written[se] = true
+					mf.writes = append(mf.writes, f)
+				}
+			}
+		case *ast.IncDecStmt:
+			if f, se := recvField(x.X, recv); se != nil && fields[f] {
+				written[se] = true
+				mf.writes = append(mf.writes, f)
+			}
+		case *ast.UnaryExpr:
+			if x.Op == token.AND {
+				if f, se := recvField(x.X, recv); se != nil && fields[f] {
+					handled[se] = true
+					mf.addrTaken = append(mf.addrTaken, f)
+				}
+			}
+		case *ast.CallExpr:
+			if n, ok := isMutexCall(x); ok {
+				if deferred[x] {
+					n = "defer " + n
+				}
+				mf.mutexCalls = append(mf.mutexCalls, n)
+				handled[x.Fun.(*ast.SelectorExpr).X.(*ast.SelectorExpr)] = true
+				return true
+			}
+			if se, ok := x.Fun.(*ast.SelectorExpr); ok {
+				if id, ok := se.X.(*ast.Ident); ok && id.Name == recv {
+					// recv.m(...) : own (or promoted) method, or a func-typed field
+					handled[se] = true
+					mf.calls = append(mf.calls, se.Sel.Name)
+					if fields[se.Sel.Name] {
+						mf.reads = append(mf.reads, se.Sel.Name)
+					}
+				} else if inner, ok := se.X.(*ast.SelectorExpr); ok {
+					if id, ok := inner.X.(*ast.Ident); ok && id.Name == recv && fields[inner.Sel.Name] {
+						// recv.field.M(...)
+						handled[inner] = true
+						mf.fieldCalls = append(mf.fieldCalls, [2]string{inner.Sel.Name, se.Sel.Name})
+					}
+				}
+			}
+		}
+		return true
+	})
+	ast.Inspect(m.fd.Body, func(n ast.Node) bool {
+		se, ok := n.(*ast.SelectorExpr)
+		if !ok {
+			return true
+		}
+		id, ok := se.X.(*ast.Ident)
+		if !ok || id.Name != recv {
+			return true
+		}
+		if handled[se] || written[se] {
+			return true
+		}
+		if fields[se.Sel.Name] {
+			mf.reads = append(mf.reads, se.Sel.Name)
+		} else {
+			// recv.m used as a method value (not called)
+			mf.addrTaken = append(mf.addrTaken, "methodvalue:"+se.Sel.Name)
+		}
+		return true
+	})
+	// the bare receiver escaping (passed as an argument / assigned) is recorded as a call "escape:recv";
+	// registering the object with the epoch notifier is the one expected case
+	ast.Inspect(m.fd.Body, func(n ast.Node) bool {
+		call, ok := n.(*ast.CallExpr)
+		if !ok {
+			return true
+		}
+		for _, a := range call.Args {
+			if id, ok := a.(*ast.Ident); ok && id.Name == recv {
+				mf.calls = append(mf.calls, "escape:"+exprString(nil, call.Fun))
+			}
+		}
+		return true
+	})
+	mf.reads, mf.writes, mf.calls, mf.addrTaken = uniq(mf.reads), uniq(mf.writes), uniq(mf.calls), uniq(mf.addrTaken)
+	seenFC := map[[2]string]bool{}
+	var fcs [][2]string
+	for _, fc := range mf.fieldCalls {
+		if !seenFC[fc] {
+			seenFC[fc] = true
+			fcs = append(fcs, fc)
+		}
+	}
+	mf.fieldCalls = fcs
+	return mf
+}
+
+func setterShape(m methodDecl, mutexField string) []string {
+	var shape []string
+	recv := m.recv
+	mutexCall := func(e ast.Expr) string {
+		c, ok := e.(*ast.CallExpr)
+		if !ok {
+			return ""
+		}
+		se, ok := c.Fun.(*ast.SelectorExpr)
+		if !ok {
+			return ""
+		}
+		inner, ok := se.X.(*ast.SelectorExpr)
+		if !ok {
+			return ""
+		}
+		if id, ok := inner.X.(*ast.Ident); ok && id.Name == recv && inner.Sel.Name == mutexField && len(c.Args) == 0 {
+			return se.Sel.Name
+		}
+		return ""
+	}
+	mentionsRecv := func(n ast.Node) bool {
+		found := false
+		ast.Inspect(n, func(k ast.Node) bool {
+			if id, ok := k.(*ast.Ident); ok && id.Name == recv {
+				found = true
+			}
+			return true
+		})
+		return found
+	}
+	for _, st := range m.fd.Body.List {
+		switch x := st.(type) {
+		case *ast.ExprStmt:
+			if n := mutexCall(x.X); n != "" {
+				shape = append(shape, n)
+			} else {
+				shape = append(shape, "other:expr")
+			}
+		case *ast.DeferStmt:
+			if n := mutexCall(x.Call); n != "" {
+				shape = append(shape, "defer "+n)
+			} else {
+				shape = append(shape, "other:defer")
+			}
+		case *ast.AssignStmt:
+			ok := len(x.Lhs) == 1 && len(x.Rhs) == 1 && x.Tok == token.ASSIGN
+			if ok {
+				if se, isSel := x.Lhs[0].(*ast.SelectorExpr); isSel {
+					if id, isId := se.X.(*ast.Ident); isId && id.Name == recv && !mentionsRecv(x.Rhs[0]) {
+						shape = append(shape, "assign:"+se.Sel.Name)
+						continue
+					}
+				}
+			}
+			shape = append(shape, "other:assign")
+		case *ast.IfStmt:
+			// guard: `if <cond not mentioning the receiver> { return }`
+			if x.Init == nil && x.Else == nil && !mentionsRecv(x.Cond) && len(x.Body.List) == 1 {
+				if r, ok := x.Body.List[0].(*ast.ReturnStmt); ok && len(r.Results) == 0 {
+					shape = append(shape, "guard")
+					continue
+				}
+			}
+			shape = append(shape, "other:if")
+		default:
+			shape = append(shape, fmt.Sprintf("other:%T", st))
+		}
+	}
+	return shape
+}
+
+func genLocks(repo, outDir string) {
+	o := &outFile{}
+	o.p("%s", header)
+	o.p("(* ---- builtInFunctions: execution lock discipline ---- *)")
+	o.p("Record method_info := MI {")
+	o.p("  mi_name : string;")
+	o.p("  mi_exported : bool;")
+	o.p("  mi_mutex_calls : list string;      (* calls on recv.mutExecution, source order; deferred ones as \"defer X\" *)")
+	o.p("  mi_rlock_defer_first : bool;       (* body starts with recv.mutExecution.RLock(); defer recv.mutExecution.RUnlock() *)")
+	o.p("  mi_reads : list string;            (* receiver fields read (not as call receiver, not as assignment target) *)")
+	o.p("  mi_writes : list string;           (* receiver fields assigned (also through index / sub-field) *)")
+	o.p("  mi_calls : list string;            (* recv.m(...) calls; \"escape:f\" when the receiver itself is passed to f; \"go-statement\" *)")
+	o.p("  mi_addr_taken : list string;       (* receiver fields whose address is taken; \"methodvalue:m\" for recv.m not called *)")
+	o.p("  mi_field_calls : list (string * string) (* recv.field.M(...) : (field, M) *)")
+	o.p("}.")
+	o.p("Record exec_type := ET {")
+	o.p("  et_type : string;")
+	o.p("  et_file : string;")
+	o.p("  et_fields : list (string * string);      (* struct fields (name, type); embedded ones named after their type *)")
+	o.p("  et_has_process : bool;                   (* has a ProcessBuiltinFunction method *)")
+	o.p("  et_setter_shape : list string;           (* top-level statements of SetNewGasConfig: guard | Lock | Unlock | assign:<field> | other:<what> *)")
+	o.p("  et_methods : list method_info;")
+	o.p("  et_external_refs : list (string * string) (* (unexported method, where) referenced outside the type's own methods *)")
+	o.p("}.")
+
+	bif := loadPkg(filepath.Join(repo, "builtInFunctions"))
+	structs := structsOf(bif)
+	methods := methodsOf(bif)
+	byType := map[string][]methodDecl{}
+	for _, m := range methods {
+		byType[m.typ] = append(byType[m.typ], m)
+	}
+	// types of interest: those with ProcessBuiltinFunction or SetNewGasConfig or a mutExecution field, plus what they embed
+	interest := map[string]bool{}
+	for t, ms := range byType {
+		for _, m := range ms {
+			if m.fd.Name.Name == "ProcessBuiltinFunction" || m.fd.Name.Name == "SetNewGasConfig" {
+				interest[t] = true
+			}
+		}
+	}
+	for t, si := range structs {
+		for _, f := range si.fields {
+			if f[0] == "mutExecution" {
+				interest[t] = true
+			}
+		}
+	}
+	for t := range interest {
+		if si := structs[t]; si != nil {
+			for _, e := range si.embeds {
+				if structs[e] != nil {
+					interest[e] = true
+				}
+			}
+		}
+	}
+	var tnames []string
+	for t := range interest {
+		tnames = append(tnames, t)
+	}
+	sort.Strings(tnames)
+	// external references to unexported methods: any selector `.m` (m unexported method of an interesting type T)
+	// that is not `recv.m` inside a method of a type declaring m
+	declares := map[string]map[string]bool{}
+	for t, ms := range byType {
+		declares[t] = map[string]bool{}
+		for _, m := range ms {
+			declares[t][m.fd.Name.Name] = true
+		}
+	}
+	extRefs := map[string][][2]string{}
+	var fnames []string
+	for n := range bif.files {
+		fnames = append(fnames, n)
+	}
+	sort.Strings(fnames)
+	for _, fname := range fnames {
+		for _, d := range bif.files[fname].Decls {
+			fd, ok := d.(*ast.FuncDecl)
+			if !ok || fd.Body == nil {
+				continue
+			}
+			encl, recv, etyp := fd.Name.Name, "", ""
+			if fd.Recv != nil && len(fd.Recv.List) == 1 {
+				etyp = strings.TrimPrefix(typeString(fd.Recv.List[0].Type), "*")
+				encl = etyp + "." + encl
+				if len(fd.Recv.List[0].Names) == 1 {
+					recv = fd.Recv.List[0].Names[0].Name
+				}
+			}
+			ast.Inspect(fd.Body, func(n ast.Node) bool {
+				se, ok := n.(*ast.SelectorExpr)
+				if !ok || ast.IsExported(se.Sel.Name) {
+					return true
+				}
+				if id, ok := se.X.(*ast.Ident); ok && recv != "" && id.Name == recv && declares[etyp][se.Sel.Name] {
+					return true // own method through own receiver
+				}
+				for _, t := range tnames {
+					if declares[t][se.Sel.Name] {
+						// a field of the same name on another struct is not a reference to the method
+						isField := false
+						if id, ok := se.X.(*ast.Ident); ok && recv != "" && id.Name == recv {
+							if si := structs[etyp]; si != nil {
+								for _, f := range si.fields {
+									if f[0] == se.Sel.Name {
+										isField = true
+									}
+								}
+							}
+						}
+						if !isField {
+							extRefs[t] = append(extRefs[t], [2]string{se.Sel.Name, encl})
+						}
+					}
+				}
+				return true
+			})
+		}
+	}
+
+	o.p("Definition exec_types : list exec_type := [")
+	for ti, t := range tnames {
+		si := structs[t]
+		fields := map[string]bool{}
+		var fl [][2]string
+		file := "?"
+		if si != nil {
+			fl = si.fields
+			file = si.file
+			for _, f := range si.fields {
+				fields[f[0]] = true
+			}
+		}
+		ms := byType[t]
+		sort.Slice(ms, func(i, j int) bool { return ms[i].fd.Name.Name < ms[j].fd.Name.Name })
+		hasProcess := false
+		var shape []string
+		var infos []string
+		for _, m := range ms {
+			if m.fd.Name.Name == "ProcessBuiltinFunction" {
+				hasProcess = true
+			}
+			if m.fd.Name.Name == "SetNewGasConfig" {
+				shape = setterShape(m, "mutExecution")
+			}
+			mf := analyseMethod(m, fields, "mutExecution")
+			infos = append(infos, fmt.Sprintf("      MI \"%s\" %s %s %s %s %s %s %s %s", mf.name, cb(mf.exported), qs(mf.mutexCalls), cb(mf.firstTwo),
+				qs(mf.reads), qs(mf.writes), qs(mf.calls), qs(mf.addrTaken), qpairs(mf.fieldCalls)))
+		}
+		sep := ";"
+		if ti == len(tnames)-1 {
+			sep = ""
+		}
+		o.p("  ET \"%s\" \"%s\" %s %s", t, file, qpairs(fl), cb(hasProcess))
+		o.p("     %s", qs(shape))
+		o.p("     [\n%s ]", strings.Join(infos, ";\n"))
+		o.p("     %s%s", qpairs(extRefs[t]), sep)
+	}
+	o.p("].")
+	o.p("")
+
+	// ---- container/mutexMap.go ----
+	o.p("(* ---- container/mutexMap.go ---- *)")
+	o.p("Record mm_method := MM {")
+	o.p("  mm_name : string;")
+	o.p("  mm_lock_calls : list string;     (* calls on mm.mut, source order; deferred ones as \"defer X\" *)")
+	o.p("  mm_bracketed : bool;             (* top level: lock statement, then every statement touching `values`, then unlock (or defer unlock right after the lock); no return in between unless deferred *)")
+	o.p("  mm_writes_values : bool;         (* assigns an element of `values` or deletes from it *)")
+	o.p("  mm_reads_values : bool;")
+	o.p("  mm_values_other_use : bool       (* `values` used other than values[k], len(values), delete(values,k), range values *)")
+	o.p("}.")
+	cont := loadPkg(filepath.Join(repo, "container"))
+	cstructs := structsOf(cont)
+	if si := cstructs["MutexMap"]; si != nil {
+		o.p("Definition mutexmap_fields : list (string * string) := %s.", qpairs(si.fields))
+	} else {
+		o.p("Definition mutexmap_fields : list (string * string) := [(\"UNRECOGNISED\", \"MutexMap struct missing\")].")
+	}
+	o.p("Definition mutexmap_methods : list mm_method := [")
+	var mmInfos []string
+	for _, m := range methodsOf(cont) {
+		if m.typ != "MutexMap" {
+			continue
+		}
+		mmInfos = append(mmInfos, analyseMapMethod(m))
+	}
+	o.p("%s", strings.Join(mmInfos, ";\n"))
+	o.p("].")
+	o.p("")
+
+	// ---- builtInFunctions/container.go ----
+	o.p("(* ---- builtInFunctions/container.go: (method, calls in source order — \"objects.M\" on the MutexMap, \"self.M\" on the container —, objects used other than as call receiver) ---- *)")
+	if si := structs["functionContainer"]; si != nil {
+		o.p("Definition container_fields : list (string * string) := %s.", qpairs(si.fields))
+	} else {
+		o.p("Definition container_fields : list (string * string) := [(\"UNRECOGNISED\", \"functionContainer struct missing\")].")
+	}
+	o.p("Definition container_methods : list (string * list string * bool) := [")
+	var cInfos []string
+	cms := byType["functionContainer"]
+	sort.Slice(cms, func(i, j int) bool { return cms[i].fd.Name.Name < cms[j].fd.Name.Name })
+	for _, m := range cms {
+		var calls []string
+		direct := false
+		handled := map[*ast.SelectorExpr]bool{}
+		ast.Inspect(m.fd.Body, func(n ast.Node) bool {
+			call, ok := n.(*ast.CallExpr)
+			if !ok {
+				return true
+			}
+			se, ok := call.Fun.(*ast.SelectorExpr)
+			if !ok {
+				return true
+			}
+			if id, ok := se.X.(*ast.Ident); ok && id.Name == m.recv {
+				calls = append(calls, "self."+se.Sel.Name)
+				handled[se] = true
+			} else if inner, ok := se.X.(*ast.SelectorExpr); ok {
+				if id, ok := inner.X.(*ast.Ident); ok && id.Name == m.recv && inner.Sel.Name == "objects" {
+					calls = append(calls, "objects."+se.Sel.Name)
+					handled[inner] = true
+				}
+			}
+			return true
+		})
+		ast.Inspect(m.fd.Body, func(n ast.Node) bool {
+			se, ok := n.(*ast.SelectorExpr)
+			if !ok || handled[se] {
+				return true
+			}
+			if id, ok := se.X.(*ast.Ident); ok && id.Name == m.recv {
+				direct = true
+			}
+			return true
+		})
+		cInfos = append(cInfos, fmt.Sprintf("  (\"%s\", %s, %s)", m.fd.Name.Name, qs(calls), cb(direct)))
+	}
+	o.p("%s", strings.Join(cInfos, ";\n"))
+	o.p("].")
+	o.p("")
+
+	// ---- atomic/*.go ----
+	o.p("(* ---- atomic/*.go ---- *)")
+	o.p("Record at_method := AM {")
+	o.p("  am_name : string;")
+	o.p("  am_prims : list string;        (* sync/atomic primitives applied to &recv.value (atomic.Value: value.Store / value.Load), source order *)")
+	o.p("  am_self_calls : list string;   (* calls to the type's own methods *)")
+	o.p("  am_plain_access : bool;        (* recv.value used other than as &recv.value argument of an atomic primitive / receiver of Store,Load *)")
+	o.p("  am_exclusive : bool            (* more than one call only as `if c { one call } else { one call }` *)")
+	o.p("}.")
+	at := loadPkg(filepath.Join(repo, "atomic"))
+	astructs := structsOf(at)
+	var anames []string
+	for n := range astructs {
+		anames = append(anames, n)
+	}
+	sort.Strings(anames)
+	ams := methodsOf(at)
+	o.p("Definition atomic_types : list (string * list (string * string) * list at_method) := [")
+	var aInfos []string
+	for _, tn := range anames {
+		var minfos []string
+		var tms []methodDecl
+		for _, m := range ams {
+			if m.typ == tn {
+				tms = append(tms, m)
+			}
+		}
+		sort.Slice(tms, func(i, j int) bool { return tms[i].fd.Name.Name < tms[j].fd.Name.Name })
+		for _, m := range tms {
+			minfos = append(minfos, analyseAtomicMethod(m))
+		}
+		aInfos = append(aInfos, fmt.Sprintf("  (\"%s\", %s, [\n%s ])", tn, qpairs(astructs[tn].fields), strings.Join(minfos, ";\n")))
+	}
+	o.p("%s", strings.Join(aInfos, ";\n"))
+	o.p("].")
+	writeIfChanged(filepath.Join(outDir, "LockDiscipline.v"), o.buf.Bytes())
+}
+
+func analyseMapMethod(m methodDecl) string {
+	recv := m.recv
+	lockName := func(e ast.Expr) string {
+		c, ok := e.(*ast.CallExpr)
+		if !ok || len(c.Args) != 0 {
+			return ""
+		}
+		se, ok := c.Fun.(*ast.SelectorExpr)
+		if !ok {
+			return ""
+		}
+		inner, ok := se.X.(*ast.SelectorExpr)
+		if !ok {
+			return ""
+		}
+		if id, ok := inner.X.(*ast.Ident); ok && id.Name == recv && inner.Sel.Name == "mut" {
+			return se.Sel.Name
+		}
+		return ""
+	}
+	isValues := func(e ast.Expr) bool {
+		se, ok := e.(*ast.SelectorExpr)
+		if !ok {
+			return false
+		}
+		id, ok := se.X.(*ast.Ident)
+		return ok && id.Name == recv && se.Sel.Name == "values"
+	}
+	touches := func(n ast.Node) bool {
+		f := false
+		ast.Inspect(n, func(k ast.Node) bool {
+			if e, ok := k.(ast.Expr); ok && isValues(e) {
+				f = true
+			}
+			return true
+		})
+		return f
+	}
+	hasReturn := func(n ast.Node) bool {
+		f := false
+		ast.Inspect(n, func(k ast.Node) bool {
+			if _, ok := k.(*ast.ReturnStmt); ok {
+				f = true
+			}
+			return true
+		})
+		return f
+	}
+	// all lock calls in source order
+	var lockCalls []string
+	deferred := map[*ast.CallExpr]bool{}
+	ast.Inspect(m.fd.Body, func(n ast.Node) bool {
+		if d, ok := n.(*ast.DeferStmt); ok {
+			deferred[d.Call] = true
+		}
+		if c, ok := n.(*ast.CallExpr); ok {
+			if nm := lockName(c); nm != "" {
+				if deferred[c] {
+					nm = "defer " + nm
+				}
+				lockCalls = append(lockCalls, nm)
+			}
+		}
+		return true
+	})
+	// bracket check on the top-level statement list
+	lockIdx, unlockIdx, deferIdx := -1, -1, -1
+	for i, st := range m.fd.Body.List {
+		switch x := st.(type) {
+		case *ast.ExprStmt:
+			switch lockName(x.X) {
+			case "Lock", "RLock":
+				if lockIdx < 0 {
+					lockIdx = i
+				}
+			case "Unlock", "RUnlock":
+				if unlockIdx < 0 {
+					unlockIdx = i
+				}
+			}
+		case *ast.DeferStmt:
+			switch lockName(x.Call) {
+			case "Unlock", "RUnlock":
+				if deferIdx < 0 {
+					deferIdx = i
+				}
+			}
+		}
+	}
+	bracketed := lockIdx >= 0 && len(lockCalls) == 2
+	if bracketed {
+		if deferIdx >= 0 {
+			bracketed = deferIdx == lockIdx+1 && unlockIdx < 0
+		} else {
+			bracketed = unlockIdx > lockIdx
+		}
+	}
+	for i, st := range m.fd.Body.List {
+		if i == lockIdx || i == unlockIdx || i == deferIdx {
+			continue
+		}
+		if touches(st) {
+			if deferIdx >= 0 {
+				if i < deferIdx {
+					bracketed = false
+				}
+			} else if !(i > lockIdx && i < unlockIdx) {
+				bracketed = false
+			}
+		}
+		if deferIdx < 0 && i > lockIdx && i < unlockIdx && hasReturn(st) {
+			bracketed = false // a return between Lock and Unlock would leave the lock held
+		}
+	}
+	// classify the uses of `values`
+	writes, reads, other := false, false, false
+	okUse := map[ast.Expr]bool{}
+	ast.Inspect(m.fd.Body, func(n ast.Node) bool {
+		switch x := n.(type) {
+		case *ast.AssignStmt:
+			for _, l := range x.Lhs {
+				if ix, ok := l.(*ast.IndexExpr); ok && isValues(ix.X) {
+					writes = true
+					okUse[ix.X] = true
+				}
+			}
+		case *ast.IndexExpr:
+			if isValues(x.X) && !okUse[x.X] {
+				reads = true
+				okUse[x.X] = true
+			}
+		case *ast.RangeStmt:
+			if isValues(x.X) {
+				reads = true
+				okUse[x.X] = true
+			}
+		case *ast.CallExpr:
+			if id, ok := x.Fun.(*ast.Ident); ok && len(x.Args) >= 1 && isValues(x.Args[0]) {
+				switch id.Name {
+				case "len":
+					reads = true
+					okUse[x.Args[0]] = true
+				case "delete":
+					writes = true
+					okUse[x.Args[0]] = true
+				}
+			}
+		}
+		return true
+	})
+	ast.Inspect(m.fd.Body, func(n ast.Node) bool {
+		if e, ok := n.(ast.Expr); ok && isValues(e) && !okUse[e] {
+			other = true
+		}
+		return true
+	})
+	return fmt.Sprintf("  MM \"%s\" %s %s %s %s %s", m.fd.Name.Name, qs(lockCalls), cb(bracketed), cb(writes), cb(reads), cb(other))
+}
+
+func analyseAtomicMethod(m methodDecl) string {
+	recv := m.recv
+	var prims, self []string
+	plain := false
+	handled := map[*ast.SelectorExpr]bool{}
+	isValue := func(e ast.Expr) *ast.SelectorExpr {
+		se, ok := e.(*ast.SelectorExpr)
+		if !ok {
+			return nil
+		}
+		if id, ok := se.X.(*ast.Ident); ok && id.Name == recv && se.Sel.Name == "value" {
+			return se
+		}
+		return nil
+	}
+	ast.Inspect(m.fd.Body, func(n ast.Node) bool {
+		call, ok := n.(*ast.CallExpr)
+		if !ok {
+			return true
+		}
+		se, ok := call.Fun.(*ast.SelectorExpr)
+		if !ok {
+			return true
+		}
+		if id, ok := se.X.(*ast.Ident); ok && id.Name == "atomic" {
+			// atomic.Prim(&recv.value, ...)
+			if len(call.Args) >= 1 {
+				if ue, ok := call.Args[0].(*ast.UnaryExpr); ok && ue.Op == token.AND {
+					if v := isValue(ue.X); v != nil {
+						handled[v] = true
+						prims = append(prims, se.Sel.Name)
+						return true
+					}
+				}
+			}
+			prims = append(prims, "UNRECOGNISED:"+se.Sel.Name)
+			return true
+		}
+		if id, ok := se.X.(*ast.Ident); ok && id.Name == recv {
+			self = append(self, se.Sel.Name)
+			handled[se] = true
+			return true
+		}
+		if v := isValue(se.X); v != nil && (se.Sel.Name == "Store" || se.Sel.Name == "Load" || se.Sel.Name == "Swap" || se.Sel.Name == "CompareAndSwap") {
+			handled[v] = true
+			prims = append(prims, "Value."+se.Sel.Name)
+		}
+		return true
+	})
+	ast.Inspect(m.fd.Body, func(n ast.Node) bool {
+		if e, ok := n.(ast.Expr); ok {
+			if v := isValue(e); v != nil && !handled[v] {
+				plain = true
+			}
+		}
+		return true
+	})
+	exclusive := len(prims)+len(self) <= 1
+	if !exclusive && len(m.fd.Body.List) == 1 {
+		if is, ok := m.fd.Body.List[0].(*ast.IfStmt); ok && is.Init == nil && is.Else != nil {
+			if eb, ok := is.Else.(*ast.BlockStmt); ok && len(is.Body.List) == 1 && len(eb.List) == 1 && len(prims)+len(self) == 2 {
+				_, ok1 := is.Body.List[0].(*ast.ExprStmt)
+				_, ok2 := eb.List[0].(*ast.ExprStmt)
+				exclusive = ok1 && ok2
+			}
+		}
+	}
+	return fmt.Sprintf("      AM \"%s\" %s %s %s %s", m.fd.Name.Name, qs(prims), qs(self), cb(plain), cb(exclusive))
+}
